@@ -53,7 +53,7 @@ def rule_tables(repo: Repo) -> RuleResult:
             r.fail(Finding("C02.tables", (m.short, "BinaryOperator", str(m.path)), f"table-key:{k}", f"{k!r} missing from BinaryOperator"))
             continue
         try:
-            t = A.bool_table(tab[k])
+            t = A.bool_table(c12.as_lambda(repo, m, tab[k]) or tab[k])      # named one-expression functions / factories are written out
         except A.Uninterpretable as e:
             raise AnalysisError(f"C02.tables: {e}")
         exp = {(a, b): fn(a, b) for a in (False, True) for b in (False, True)}
